@@ -5,7 +5,7 @@ T=${1:-quick}
 W=/tmp/mutwt-$$
 git -C /repo worktree add --detach $W HEAD -q || exit 3
 for d in /verif/seeded/C*/; do
-  n=$(basename $d); p=${n%%-*}
+  n=$(basename $d); p=${n:0:3}
   (cd $W && git checkout -q -- . && git apply $d/patch.diff) || { echo "$n: patch does not apply"; continue; }
   out=$(VERIF_REPO=$W python3 /verif/vcheck.py $p --tier $T --no-evidence 2>&1)
   code=$?
